@@ -1194,6 +1194,8 @@ class C14(Prop):
         "(pyInt, floatParse), and correct rounding of float literals at the stopbits test (floatIsStopbits): modelled, checked "
         "differentially; Unicode tables re-checked against unicodedata on every run",
         "glibc inet_pton for AF_INET/AF_INET6 (isIp4, isIp6) and its ValueError on NUL: modelled, checked differentially",
+        "the `__init__` bodies and `_validate_*` helpers (statement order, comparisons, constants) are hand-modelled in "
+        "`construct`; only the parser tables, constructor signatures, dispatch chain and the reserved UDP port are regenerated",
         "Python keyword-argument binding (bindArgs) and str.lower()/upper() on the interface and device names",
         "socket.gethostbyname('localhost') is pinned to 127.0.0.1 by the harness; sys.platform is switched by the harness",
         "strings containing lone surrogates are outside the model (Lean Char = Unicode scalar value)",
